@@ -194,6 +194,7 @@ func runC01(r *mon.Run) {
 	r.FloorFam("C-split", 50)
 	r.FloorFam("D-shift", 20)
 	r.FloorFam("E-index", 20)
+	r.FloorFam("F-degenerate", 50)
 	r.FloorAccept("ref-honest", 10)
 }
 
@@ -371,6 +372,29 @@ func c01Set(x *c01ctx, rng *rand.Rand, D []int) {
 			break
 		}
 	}
+	// F. forgery without any credential: a randomised signature element A that is not a group element (0, a multiple
+	// of N, a multiple of one prime factor) makes factors of the reconstructed commitment collapse, so that the
+	// challenge can be computed up front from a guessed commitment and every other field chosen freely.
+	{
+		P := x.key.SK.P
+		degA := map[string]*big.Int{"0": bi(0), "N": cp(pk.N), "2N": mul(pk.N, bi(2)), "-N": new(big.Int).Neg(pk.N), "p": cp(P), "p*k": mul(P, bi(int64(3+rng.IntN(1000)))), "1": bi(1), "N-1": sub(pk.N, bigOne), "N+1": add(pk.N, bigOne)}
+		for _, an := range sortedStrKeys(degA) {
+			for zn, z := range map[string]*big.Int{"0": bi(0), "1": bi(1), "Z": cp(pk.Z)} {
+				d := &gabi.ProofD{A: cp(degA[an]), EResponse: randBig(rng, int(pk.Params.LeCommit)), VResponse: randBig(rng, int(pk.Params.LvCommit)),
+					AResponses: map[int]*big.Int{}, ADisclosed: map[int]*big.Int{}}
+				for i := 0; i < n; i++ {
+					if inInts(D, i) {
+						d.ADisclosed[i] = bi(int64(9000 + i)) // wished values, never signed
+					} else {
+						d.AResponses[i] = randBig(rng, int(pk.Params.LmCommit))
+					}
+				}
+				d.C = refimpl.Challenge(x.ctx, x.non, []*big.Int{d.A, z}, false)
+				x.try("F-degenerate", fmt.Sprintf("%s forged without credential: A=%s, challenge for guessed commitment %s", desc, an, zn), d)
+			}
+		}
+	}
+
 	// proving must not have modified the credential (later proofs would then report other values than the issuer signed)
 	for i := range cred.Ledger {
 		if cred.C.Attributes[i].Cmp(cred.Ledger[i]) != 0 {
